@@ -198,6 +198,11 @@ def coq_deps(vo_targets):
 
 def build_model(pid, extract_v, driver_ml):
     """Extract (coqc) and compile the OCaml model driver; cached on input hash."""
+    with Lock('ocaml-' + pid):
+        return _build_model(pid, extract_v, driver_ml)
+
+
+def _build_model(pid, extract_v, driver_ml):
     d = os.path.join(CACHE, 'ocaml', pid)
     os.makedirs(d, exist_ok=True)
     exe = os.path.join(d, 'h3model')
@@ -215,8 +220,9 @@ def build_model(pid, extract_v, driver_ml):
     digest = h.hexdigest()
     if os.path.exists(exe) and os.path.exists(stamp) and open(stamp).read() == digest:
         return exe
-    rc, out = run(['coqc', '-Q', COQ, 'H3V', '-w', '-notation-overridden,-extraction-opaque-accessed,-extraction-reserved-identifier',
-                   '-o', os.path.join(d, os.path.basename(extract_v) + 'o'), extract_v], cwd=d, timeout=600)
+    with Lock('build'):
+        rc, out = run(['coqc', '-Q', COQ, 'H3V', '-w', '-notation-overridden,-extraction-opaque-accessed,-extraction-reserved-identifier',
+                       '-o', os.path.join(d, os.path.basename(extract_v) + 'o'), extract_v], cwd=d, timeout=600)
     if rc != 0:
         raise CheckError('extraction failed for %s:\n%s' % (pid, out[-3000:]))
     base = None
@@ -512,18 +518,19 @@ def check_property(prop, tier, seed, replay=None):
             cov['coqchk'] = out2[-600:]
             if rc2 != 0:
                 violations.append(('coqchk', {'output': out2[-2000:]}))
-        # 3. model + harness builds
-        model_exe = None
-        try:
-            # the model needs its .vo files even when a proof broke
-            if not proof_ok:
+    # 3. model + harness builds
+    model_exe = None
+    try:
+        # the model needs its .vo files even when a proof broke
+        if not proof_ok:
+            with Lock('build'):
                 coq_make(prop.model_targets if hasattr(prop, 'model_targets') else [])
-            model_exe = build_model(pid, os.path.join(COQ, prop.extract_v), os.path.join(ROOT, 'ocaml', prop.driver_ml))
-        except CheckError as ex:
-            if proof_ok:
-                raise
-            notes.append('model not buildable after broken proof: %s' % str(ex)[:300])
-        bins = build_harness([prop.harness_bin] + list(getattr(prop, 'extra_bins', [])), getattr(prop, 'harness_dir', 'harness'))
+        model_exe = build_model(pid, os.path.join(COQ, prop.extract_v), os.path.join(ROOT, 'ocaml', prop.driver_ml))
+    except CheckError as ex:
+        if proof_ok:
+            raise
+        notes.append('model not buildable after broken proof: %s' % str(ex)[:300])
+    bins = build_harness([prop.harness_bin] + list(getattr(prop, 'extra_bins', [])), getattr(prop, 'harness_dir', 'harness'))
 
     # 4. cases
     rng = random.Random(seed)
